@@ -91,7 +91,7 @@ META = dict(
         "identifier limits are >= 8 characters (smallest real backend limit is 30; the truncation format needs 8)",
     ],
     bounds=dict(
-        quick="templates <=2 tokens x 5 kinds x 6 lengths x 3 limits x 5 dialect classes; column sequences k<=4 over a 12-name universe x 3 label_length x 8 shapes",
+        quick="templates <=2 tokens x 5 kinds x 6 lengths x (3 limits on default and mysql, limit 30 on postgresql / oracle / mssql); column sequences k<=3 (k<=4 for label_length=10) over a 12-name universe x 3 label_length x 8 shapes",
         thorough="templates <=3 tokens x 5 kinds x 6 lengths x 3 limits x 5 dialect classes; column sequences k<=5 over a 14-name universe x 3 label_length x 8 shapes",
     ),
 )
@@ -326,10 +326,17 @@ def ddl_cases(tier, dname, limit):
             yield (kind, ("table_name",), 3, 3, 1, ("str", x))
 
 
+def _limits_for(tier, dname):
+    """quick: the full limit sweep on the default and the mysql (separate index/constraint limits) dialect, limit 30 on the others"""
+    if tier == "quick" and dname not in ("default", "mysql"):
+        return [30]
+    return LIMITS
+
+
 def _ddl_digest(tier, dname, part=None):
     h = hashlib.sha1()
     n = 0
-    for limit in LIMITS:
+    for limit in _limits_for(tier, dname):
         for case in ddl_cases(tier, dname, limit):
             n += 1
             if n % 7 != 3:
@@ -531,7 +538,7 @@ def check_stmt(label_length, shape, names, tname="t"):
 def shards(tier, seed):
     out = []
     for dname in DIALECTS:
-        for limit in LIMITS:
+        for limit in _limits_for(tier, dname):
             out.append(("ddl", dname, limit))
         out.append(("hashseed", dname))
     for ll in LABEL_LENGTHS:
@@ -630,7 +637,7 @@ def run_shard(shard, tier, rec):
         _, ll, shape = shard
         lim = s_limit(ll)
         uni = universe(lim, tier)
-        kmax = 4 if tier == "quick" else 5
+        kmax = (4 if ll == 10 else 3) if tier == "quick" else 5
         n = 0
         for k in range(2, kmax + 1):
             for names in itertools.permutations(uni, k):
